@@ -2,6 +2,7 @@ package props
 
 import (
 	"bytes"
+	"runtime/debug"
 	"crypto/ed25519"
 	"fmt"
 	"testing"
@@ -229,7 +230,7 @@ func applyMutation(c C01Case, tgtBytes []byte, tgt, donor *wire.Biscuit) (*wire.
 func libAccepts(data []byte, key ed25519.PublicKey) (accepted, unmarshalled bool, reser []byte, detail string, pan any) {
 	defer func() {
 		if p := recover(); p != nil {
-			pan = p
+			pan = fmt.Sprintf("%v\n%s", p, trimStack(debug.Stack()))
 		}
 	}()
 	b, err := biscuit.Unmarshal(data)
